@@ -1283,7 +1283,7 @@ fn enum_strategy(idx: usize, keyword_names: bool) -> BoxedStrategy<EnumDecl> {
     ];
     let int_prims: Vec<Prim> = vec![Prim::UChar, Prim::SChar, Prim::Short, Prim::UShort, Prim::Int, Prim::UInt, Prim::Long, Prim::ULong, Prim::LongLong, Prim::ULongLong, Prim::Char];
     (
-        proptest::collection::vec((val, proptest::option::weighted(if keyword_names { 0.12 } else { 0.0 }, 0..KEYWORD_ENUMERATORS.len())), 1..6),
+        proptest::collection::vec((val, if keyword_names { proptest::option::weighted(0.12, 0..KEYWORD_ENUMERATORS.len()).boxed() } else { Just(None::<usize>).boxed() }), 1..6),
         prop_oneof![5 => Just(None), 1 => (0..int_prims.len()).prop_map(move |i| Some(int_prims[i]))],
         0u8..4,
         0u32..1000,
